@@ -47,6 +47,9 @@ POOLS = {
                '_n0', '_o'],
     'nonascii': ['café', 'naïve', 'über', 'señor', 'αβ', '日本', 'grüß',
                  'ångström', 'Жук', 'pâté', 'été', 'øre', 'ça', 'łódź'],
+    # AFM WORD tokens that are case variants of the AFM grammar's keywords and function names
+    'afmkw': ['Max', 'Min', 'Sum', 'To', 'Not', 'And', 'Or', 'Iff', 'Implies', 'Requires', 'Excludes', 'Abs', 'Cos', 'Sin', 'Mod',
+              'Pow', 'In', 'Real'],
     # AFM WORD tokens equal up to letter case
     'afmcase': ['Abc', 'ABC', 'AbC', 'ABc', 'Xyz', 'XYZ', 'XyZ', 'XYz', 'Pq', 'PQ', 'Mno', 'MNO', 'MnO', 'MNo'],
     'afmword': ['Alpha', 'Beta2', 'Gamma', 'DeltaX', 'Eps', 'Zeta9', 'Eta', 'Theta1', 'Iota',
@@ -96,7 +99,7 @@ class Naming:
         n = 0
         while True:  # pool exhausted: derive a fresh one
             cand = pool[idx % len(pool)] + ('_%d' % n if cls in ('plain', 'afmword') else ' %d' % n)
-            if cls in ('afmword', 'afmcase'):
+            if cls in ('afmword', 'afmcase', 'afmkw'):
                 cand = pool[idx % len(pool)] + 'X%d' % n
             if cand not in self._used:
                 return cand
